@@ -7,6 +7,7 @@ SOAK = True  # thorough tier also runs the repository's own tests with this moni
 RULE = ("online-generated building histories (all ops, all protocols, failing calls interleaved) on random channel "
         "configurations; invariant checked after every call. non-trivial = history with >= 2 channels, >= 1 "
         "auto-inserted delay and >= 1 clock/min-duration rounding (distinct case indices)")
+RULE += " Later additions: the reported pending fall time is also capped independently of Pulse.fall_time (twice the applicable rise time)."
 ASSUMPTIONS = ["slot lists are read from Sequence._schedule (anchored state); fall times come from Pulse.fall_time"]
 TIERS = {"quick": dict(cases=700, shards=8, case_timeout=120, shard_timeout=900),
          "thorough": dict(cases=12000, shards=16, case_timeout=120, shard_timeout=3000)}
